@@ -1,8 +1,8 @@
 #!/bin/bash
 # Move a seed worktree (detached HEAD with an uncommitted change) onto /repo's current HEAD.
-id=$1; wt=/tmp/seed_$id
+id=$1; P=${SEEDPFX:-seed}; wt=/tmp/${P}_$id
 cd "$wt" || exit 2
 head=$(git -C /repo rev-parse HEAD)
 [ "$(git rev-parse HEAD)" = "$head" ] && { echo "already at $head"; exit 0; }
-git diff > /tmp/seed_${id}_rebase.diff
-git apply -R /tmp/seed_${id}_rebase.diff && git checkout -q --detach "$head" && git apply /tmp/seed_${id}_rebase.diff && echo "rebased $id onto $head: $(git diff --stat | tail -1)"
+git diff > /tmp/${P}_${id}_rebase.diff
+git apply -R /tmp/${P}_${id}_rebase.diff && git checkout -q --detach "$head" && git apply /tmp/${P}_${id}_rebase.diff && echo "rebased $id onto $head: $(git diff --stat | tail -1)"
